@@ -261,13 +261,15 @@ impl World {
     fn resolve(&self, ap: &PolicySpec, st: &MStructure, bad: u8, for_enc: bool) -> (RPolicy, Vec<Conj>, &'static str) {
         let mut rp = ap.resolve(&st.view());
         let mut note = "";
+        // the invalid element goes into the first or (when there are several clauses) the last one
+        let gi = if rp.groups.len() > 1 && (ap.shape >> 7) & 1 == 1 { rp.groups.len() - 1 } else { 0 };
         match bad % 16 {
             1 if !rp.broadcast => {
-                rp.groups[0][0].1[0] = "nope".into();
+                rp.groups[gi][0].1[0] = "nope".into();
                 note = "unknown-attribute";
             }
             2 if !rp.broadcast => {
-                rp.groups[0][0].0 = "NoSuchDim".into();
+                rp.groups[gi][0].0 = "NoSuchDim".into();
                 note = "unknown-dimension";
             }
             3 if for_enc && !rp.broadcast => {
@@ -721,6 +723,21 @@ impl World {
     }
 
 
+    pub fn del_dim_named(&mut self, nm: &str) -> Step {
+        let before = self.m.structure.clone();
+        let e = self.m.structure.del_dim(nm);
+        let r = self.msk.access_structure.del_dimension(nm);
+        self.log(format!("del_dimension({nm}) -> {}", okerr(&r)));
+        if e == Expect::Ok {
+            self.events.insert("del-dim");
+            self.events.insert("deleted-something");
+            self.remember_dead(&before);
+        } else {
+            self.events.insert("err:unknown-dimension");
+        }
+        self.mismatch("del_dimension", &e, r.is_ok(), &errtxt(&r), &["C03"], &[])
+    }
+
     pub fn add_dim_named(&mut self, nm: &str, hier: bool) -> Step {
         let e = self.m.structure.add_dim(nm, hier);
         let r = if hier { self.msk.access_structure.add_hierarchy(nm.to_string()) } else { self.msk.access_structure.add_anarchy(nm.to_string()) };
@@ -781,18 +798,7 @@ impl World {
             }
             Op::DelDim { dim, bad } => {
                 let nm = self.dim_name(*dim, *bad);
-                let before = self.m.structure.clone();
-                let e = self.m.structure.del_dim(&nm);
-                let r = self.msk.access_structure.del_dimension(&nm);
-                self.log(format!("del_dimension({nm}) -> {}", okerr(&r)));
-                if e == Expect::Ok {
-                    self.events.insert("del-dim");
-                    self.events.insert("deleted-something");
-                    self.remember_dead(&before);
-                } else {
-                    self.events.insert("err:unknown-dimension");
-                }
-                self.mismatch("del_dimension", &e, r.is_ok(), &errtxt(&r), &["C03"], &[])
+                self.del_dim_named(&nm)
             }
             Op::AddAttr { dim, name, hybrid, after, bad } => {
                 let d = self.dim_name(*dim, *bad % 7 == 1);
@@ -1551,7 +1557,21 @@ impl World {
             self.usk_untouched(&before_usk, &key, "refresh_usk", "unknown-user")?;
             let old: MasterSecretKey = de(&bytes).map_err(|e| Abort::Violation(Fail::new("internal", e)))?;
             if old != stale {
-                return self.fail(&["C10"], "msk-modified-by-failed-refresh_usk:unknown-user", "refresh returned Err but the (snapshot) master key changed".into());
+                self.soft(&["C10", "C17"], "msk-modified-by-failed-refresh_usk:unknown-user", "refresh returned Err but the (snapshot) master key changed (e.g. an identifier was registered)".into())?;
+            }
+        }
+        // a master key restored from an older serialization must still hand out fresh identifiers
+        if let Ok(mut restored) = de::<MasterSecretKey>(&bytes) {
+            if let Ok(k) = self.cc.generate_user_secret_key(&mut restored, &AccessPolicy::Broadcast) {
+                if let Ok(w) = ser(&k).map_err(|_| ()).and_then(|b| WUsk::decode(&b).map_err(|_| ())) {
+                    let live = self.snapshot_msk()?;
+                    if let Ok(wm) = WMsk::decode(&live) {
+                        self.count("restored-keygen-id-checked");
+                        if wm.users.iter().any(|u| *u == w.id) {
+                            return self.fail(&["C17", "C16"], "restored-master-key-reissues-an-identifier", "a key generated by a restored snapshot of the master key carries an identifier the live master key already issued".into());
+                        }
+                    }
+                }
             }
         }
         self.remember_msk();
